@@ -448,6 +448,9 @@ def parse_reader_output(be, out):
             cur["visible"].append(line[8:])
         elif line.startswith("P|"):
             f = line.split("|")
+            if len(f) < 3 or not f[2].isdigit() or len(f) < 3 + int(f[2]):
+                sym = None                                      # cut off by a crash of the reader
+                continue
             name, rank = f[1], int(f[2])
             sym = {"store": "macro" if name in macro else "object", "kind": None, "bits": 0, "sgn": "na",
                    "shape": [int(x) for x in f[3:3 + rank]], "elems": [], "unit": "", "_kinds": set()}
@@ -949,6 +952,15 @@ def run_chunk(args):
         if p.returncode == 0:
             q = subprocess.run(["./reader"], cwd=sub, stdout=subprocess.PIPE, stderr=subprocess.PIPE, text=True, errors="replace", timeout=1800)
             got = parse_reader_output(be, q.stdout)
+            if q.returncode != 0 and got and rounds <= 12:       # the reader crashed (e.g. a string symbol that is no string):
+                order = [rec["_rid"] for rec, _ in todo]         # blame the scenario it was printing, keep the ones before,
+                last = max(got, key=order.index)                 # read the ones after it again
+                for r in order[:order.index(last)]:
+                    if r in got:
+                        res[r] = got[r]
+                res[last] = {"syms": {}, "keys": None, "visible": [], "error": ("compile", "the reader program crashed while reading this scenario")}
+                todo = [(rec, t) for rec, t in todo if rec["_rid"] not in res]
+                continue
             for rec, _ in todo:
                 res[rec["_rid"]] = got.get(rec["_rid"]) or {"syms": {}, "keys": None, "visible": [], "error": ("compile", "reader printed nothing for this scenario: " + q.stderr[-200:])}
             break
